@@ -103,7 +103,7 @@ def gen_case(rng, tier, force_big_edge=False):
             if ins:
                 ext = [{"tgt": rng.choice(ins), "samples": [C.q2s(F(rng.randint(-4, 4), 2)) for _ in range(steps)]}]
         case = {"mdl": mdl, "grid": grid, "param_map": pmap, "permute": permute, "as_frame": as_frame, "frame_index": frame_index, "solver": solver, "steps": steps,
-                "vectorize": vectorize, "ext_inputs": ext}
+                "vectorize": vectorize, "ext_inputs": ext, "as_path": rng.random() < 0.3}
         # admissible: every row's exact trajectory stays within float64
         try:
             ok = True
@@ -160,6 +160,13 @@ def impl_sweep(case):
             warnings.simplefilter("ignore")
             try:
                 c, _, _ = M.build_pyrates(mdl)
+                if case.get("as_path"):
+                    # the circuit is given to grid_search as a YAML path (every row is adapted from the template loaded from that path)
+                    from .c15_e2e import mdl_to_yaml
+                    os.makedirs("ymod", exist_ok=True)
+                    open("ymod/model.yaml", "w").write(mdl_to_yaml(mdl))
+                    cname = c.name
+                    c = os.path.join(os.getcwd(), "ymod", "model", mdl["circuit"]["name"])
                 grid = {k: [float(F(v)) for v in vs] for k, vs in case["grid"].items()}
                 if case["as_frame"]:
                     grid = pd.DataFrame(grid, index=case["frame_index"])
@@ -180,7 +187,7 @@ def impl_sweep(case):
                 for j, col in enumerate(res.columns):
                     cols.append([[str(x) for x in col] if isinstance(col, tuple) else [str(col)], [C.f2s(x) for x in res.values[:, j]]])
                 table = {str(idx): {k: C.f2s(tab[k][idx]) for k in tab.columns} for idx in tab.index}
-                return {"cols": cols, "table": table, "table_order": [str(i) for i in tab.index], "outputs": outputs, "index": [C.f2s(t) for t in res.index.values], "name": c.name}
+                return {"cols": cols, "table": table, "table_order": [str(i) for i in tab.index], "outputs": outputs, "index": [C.f2s(t) for t in res.index.values], "name": (cname if case.get("as_path") else c.name)}
             except Exception as e:
                 return {"error": type(e).__name__, "msg": str(e)[:300]}
 
@@ -207,7 +214,7 @@ def check(tier, seed, replay=None):
         keys = list(case["grid"])
         kinds = "+".join(sorted({"edge" if "edges" in case["param_map"][k] else "node" for k in keys}))
         multi = any(len(pm.get("nodes", [])) * len(pm["vars"]) > 1 or len(pm.get("edges", [])) > 1 for pm in case["param_map"].values())
-        rep.count(("permuted" if case["permute"] else "linear") + ("-frame" if case["as_frame"] else "") + "-" + kinds + ("-input" if case["ext_inputs"] else ""),
+        rep.count(("permuted" if case["permute"] else "linear") + ("-frame" if case["as_frame"] else "") + "-" + kinds + ("-input" if case["ext_inputs"] else "") + ("-yamlpath" if case.get("as_path") else ""),
                   json.dumps(case, sort_keys=True), nontrivial=multi and len(keys) >= 2)
         if "error" in im:
             if case["vectorize"] and im["error"] == "ValueError" and "setting an array element with a sequence" in im.get("msg", "") and "C17-inherits-C04-dot-edge" in active_kf:
